@@ -1,7 +1,7 @@
 PROP = {
     "id": "C27",
     "theorem_modules": ["Verif.Properties.C27"],
-    "min_theorems": 9,
+    "min_theorems": 10,
     "required_theorems": [
         "Verif.Properties.C27.comparator_sound_partial",
         "Verif.Properties.C27.accepted_declaration_compatible_partial",
@@ -9,6 +9,7 @@ PROP = {
         "Verif.Properties.C27.values_stay_typed_partial",
         "Verif.Properties.C27.enum_meaning_stable_partial",
         "Verif.Properties.C27.interface_never_removed",
+        "Verif.Properties.C27.live_unless_removed",
         "Verif.Properties.C27.enum_case_stable",
     ],
     "streams": [
@@ -29,7 +30,8 @@ PROP = {
                   "keep their case (enum_meaning_stable_partial), every interface conformed to is still conformed to; proved by "
                   "induction over the path to a nested declaration through the three loops of checkNestedDeclarations "
                   "(accepted_tree_compatible_partial), over the conformance derivation and over the value.  Interfaces are "
-                  "never removed (interface_never_removed), other declarations only under a #removedType pragma; the type "
+                  "never removed (interface_never_removed), other declarations at any depth only under a #removedType pragma "
+                  "(live_unless_removed); the type "
                   "comparator identifies only ASTs of the same denotation.  Tied to /repo by the `update` stream: (old, new) "
                   "pairs produced by mutating generated contracts are parsed by the real parser, serialised (internal/declsx), "
                   "and the model's verdict and multiset of error kinds is compared with the real "
